@@ -6,6 +6,9 @@
                                   -> Definition src_inertia_term (n s q : Q) : Q := <expr>   (per coordinate)
     WeightedForest.split          th = sh[<expr over nbcc, k>]
                                   -> Definition src_split_index (nbcc k : Z) : Z := <expr>
+    fusion(K, pop, i, j, k)       fi = <expr over pop[i], pop[j], pop[k]>; fj = <expr over the same and fi>  (first two statements,
+                                  the only assignments to fi / fj; float(...) is the identity over Q)
+                                  -> Definition src_fusion_fi (pop_i pop_j pop_k : Q) : Q, src_fusion_fj (pop_i pop_j pop_k fi : Q) : Q
     WeightedForest.partition      valid = self.height <op> threshold [| self.isleaf()],  op in {<, <=}
                                   -> Definition src_partition_strict : bool
   utils.py
@@ -72,6 +75,26 @@ def _arith(n, names, scope):
     raise Unsupported("expression: " + ast.dump(n))
 
 
+def _pop_arith(n, names):
+    """+ - * / over pop[i], pop[j], pop[k] (optionally wrapped in float()), the given names and integral constants"""
+    m = n
+    if isinstance(m, ast.Call) and isinstance(m.func, ast.Name) and m.func.id == "float" and len(m.args) == 1 and not m.keywords:
+        m = m.args[0]
+    if (isinstance(m, ast.Subscript) and isinstance(m.value, ast.Name) and m.value.id == "pop"
+            and isinstance(m.slice, ast.Name) and m.slice.id in ("i", "j", "k")):
+        return "pop_" + m.slice.id
+    if isinstance(n, ast.Name) and n.id in names:
+        return n.id
+    if (isinstance(n, ast.Constant) and isinstance(n.value, (int, float)) and not isinstance(n.value, bool)
+            and float(n.value).is_integer()):
+        return "(inject_Z (%d))" % int(n.value)
+    if isinstance(n, ast.BinOp):
+        for k, v in {ast.Add: "+", ast.Sub: "-", ast.Mult: "*", ast.Div: "/"}.items():
+            if isinstance(n.op, k):
+                return "(%s %s %s)" % (_pop_arith(n.left, names), v, _pop_arith(n.right, names))
+    raise Unsupported("fusion expression: " + ast.dump(n))
+
+
 def _feature_sum(n, idx):
     """Features[idx][i] + Features[idx][j]"""
     def term(t, var):
@@ -116,6 +139,22 @@ def translate(repo):
         raise Unsupported("_inertia: return is not np.sum(<expr>)")
     inertia = _arith(r.value.args[0], {"n", "s", "q"}, "Q")
     meta["_inertia"] = ast.unparse(r.value.args[0])
+    # ---- fusion: fi = float(pop[i]) / (pop[k]); fj = 1.0 - fi
+    fn = _func(ht, "fusion")
+    if [a.arg for a in fn.args.args] != ["K", "pop", "i", "j", "k"]:
+        raise Unsupported("fusion signature")
+    st = _stmts(fn)
+    for s, var in zip(st[:2], ("fi", "fj")):
+        if not (isinstance(s, ast.Assign) and len(s.targets) == 1 and isinstance(s.targets[0], ast.Name) and s.targets[0].id == var):
+            raise Unsupported("fusion: statement for %s: %s" % (var, ast.dump(s)))
+    for s in st[2:]:
+        for w in ast.walk(s):
+            if isinstance(w, ast.Name) and isinstance(w.ctx, ast.Store) and w.id in ("fi", "fj", "pop", "i", "j", "k"):
+                raise Unsupported("fusion: %s is assigned again" % w.id)
+    fus_fi = _pop_arith(st[0].value, set())
+    fus_fj = _pop_arith(st[1].value, {"fi"})
+    meta["fusion_fi"] = ast.unparse(st[0].value)
+    meta["fusion_fj"] = ast.unparse(st[1].value)
     # ---- WeightedForest.split: th = sh[<index>]
     fn = _func(ht, "split", "WeightedForest")
     idx = None
@@ -160,6 +199,10 @@ From Coq Require Import ZArith QArith.
 (* _inertia: per-coordinate term under np.sum; n, s, q = count, sum, sum of squares of the union *)
 Definition src_inertia_term (n s q : Q) : Q := %s.
 
+(* fusion: fi = float(pop[i]) / (pop[k]); fj = 1.0 - fi *)
+Definition src_fusion_fi (pop_i pop_j pop_k : Q) : Q := %s.
+Definition src_fusion_fj (pop_i pop_j pop_k fi : Q) : Q := %s.
+
 (* WeightedForest.split: th = sh[src_split_index nbcc k] (Python index, may be negative) *)
 Definition src_split_index (nbcc k : Z) : Z := (%s)%%Z.
 
@@ -171,5 +214,5 @@ Definition src_partition_keeps_leaves : bool := %s.
 
 (* _EStep: z[dist < mindist] = q  (true: `<`, false: `<=`) *)
 Definition src_estep_strict : bool := %s.
-""" % (HC, UT, inertia, idx, "true" if pstrict else "false", "true" if keeps_leaves else "false", "true" if estrict else "false")
+""" % (HC, UT, inertia, fus_fi, fus_fj, idx, "true" if pstrict else "false", "true" if keeps_leaves else "false", "true" if estrict else "false")
     return txt, meta
